@@ -115,3 +115,48 @@ def safe_norm(x):
     if m == 0 or not np.isfinite(m):
         return m
     return m * float(np.linalg.norm(x / m))
+
+
+def _op_schmidt(M, dl, dr):
+    """Operator-Schmidt matrix of M (dl*dr x dl*dr) across the cut dl | dr: rows (l, l'), columns (r, r')."""
+    return np.asarray(M).reshape(dl, dr, dl, dr).transpose(0, 2, 1, 3).reshape(dl * dl, dr * dr)
+
+
+def _rank_one(R, rel=1e-10):
+    s = np.linalg.svd(R, compute_uv=False)
+    return len(s) < 2 or s[0] == 0 or s[1] <= rel * s[0]
+
+
+def is_product_plus_identity(M, d, L):
+    """True iff M = h_1 x ... x h_L + alpha 1 for some number alpha (a product operator up to an identity shift)."""
+    M = np.asarray(M, dtype=complex)
+    n = M.shape[0]
+    if L <= 1 or not np.any(M):
+        return True
+
+    def product(P):
+        return all(_rank_one(_op_schmidt(P, d ** c, d ** (L - c))) for c in range(1, L))
+    if product(M):
+        return True
+    R = _op_schmidt(M, d, n // d)
+    e = np.identity(d).reshape(-1).astype(complex)
+    f = np.identity(n // d).reshape(-1).astype(complex)
+    g = np.random.Generator(np.random.PCG64(12345))
+    u = g.normal(size=d * d) + 1j * g.normal(size=d * d)
+    u = u - e * (e.conj() @ u) / (e.conj() @ e)
+    w = g.normal(size=len(f)) + 1j * g.normal(size=len(f))
+    w = w - f * (f.conj() @ w) / (f.conj() @ f)
+    a = R @ w.conj()              # proportional to vec(h_1) when M = h_1 x Q + alpha 1 (w is orthogonal to vec(1))
+    b = R.T @ u.conj()            # proportional to vec(Q)
+    nR = float(np.linalg.norm(R))
+    if float(np.linalg.norm(a)) <= 1e-12 * nR * float(np.linalg.norm(w)) or float(np.linalg.norm(b)) <= 1e-12 * nR * float(np.linalg.norm(u)):
+        # h_1 (or the rest) is itself a multiple of the identity: M = 1 x M' exactly when the cut has rank one
+        if _rank_one(R) and d > 1:
+            Mp = np.trace(M.reshape(d, n // d, d, n // d), axis1=0, axis2=2) / d
+            if np.linalg.norm(np.kron(np.identity(d), Mp) - M) <= 1e-10 * np.linalg.norm(M):
+                return is_product_plus_identity(Mp, d, L - 1)
+        return False
+    X = np.stack([np.outer(a, b).reshape(-1), np.outer(e, f).reshape(-1)], axis=1)
+    sol = np.linalg.lstsq(X, R.reshape(-1), rcond=None)[0]
+    P = M - sol[1] * np.identity(n)
+    return product(P)
